@@ -170,6 +170,8 @@ def run(ctx):
         if m.get("ok") != d:
             res.tie_break("obj.load_sm (model loader on the real tokenizer's output)", case, "impl reload == original", str(m)[:400])
     probe_findings(ctx, res)
+    from adapters import msdcontract
+    msdcontract.validate(ctx, res)
     res.assumptions = ["msdparser (tokenizer and MSDParameter escaping) is the trusted base; its escaping gaps are excluded by the SafeDoc filter and probed as known findings",
                        "unpaired surrogates are outside the domain"]
     return res
